@@ -14,7 +14,7 @@ Theorem C01_fragment_rows :
   forall (bk : FragTranslate.backend) (e : ex) (n0 : nat) (ev : event) (ms : frame) (old : value),
   bases_ok e = true ->
   frame_get (col_name (n0 + size e)) ms = Some (ex_type e, old) ->
-  match de ev e with
+  match dex ev e with
   | ROk v => exists ms', run_event (prog bk e n0) ms ev = ROk ([[conv (ex_type e) v]], ms') /\
                          frame_get (col_name (n0 + size e)) ms' = Some (ex_type e, conv (ex_type e) v)
   | RFault f => run_event (prog bk e n0) ms ev = RFault f
@@ -22,6 +22,19 @@ Theorem C01_fragment_rows :
   end.
 Proof. exact frag_correct. Qed.
 Print Assumptions C01_fragment_rows.
+
+(* `dex` evaluates in the two phases of the emitted code (all retrievals and loops, then the value expression with its
+   bounds-checked at()); it has exactly the values of the ordinary left-to-right evaluation `de` - the two can differ only
+   in WHICH fault an expression with several undefined parts raises.  The same for whole rows. *)
+Theorem C01_two_phase_reference_is_natural :
+  forall (ev : event) (e : ex) (v : value), dex ev e = ROk v <-> de ev e = ROk v.
+Proof. exact dex_natural. Qed.
+Print Assumptions C01_two_phase_reference_is_natural.
+
+Theorem C01_two_phase_row_is_natural :
+  forall (ev : event) (r : row) (vs : list value), drow ev r = ROk vs <-> dnatrow ev r = ROk vs.
+Proof. exact drow_natural. Qed.
+Print Assumptions C01_two_phase_row_is_natural.
 
 (* the reference semantics is the LINQ one: with total predicates, Count = length of the filtered collection *)
 Theorem C01_count_is_filter_length :
@@ -40,7 +53,7 @@ Theorem C01_fragment_statements :
   | ROk _ => exists st', exec_stmts brs ev (tss idiom e n) st = ROk st' /\
                          members st' = members st /\ rows st' = rows st /\
                          (forall y, ~ In y (vars e n) -> fget y st' = fget y st) /\
-                         bound e n st' /\ eval ev st' (tc e n) = de ev e
+                         bound e n st' /\ (nstuck (de ev e) -> eval ev st' (tc e n) = de ev e)
   | RFault f => exec_stmts brs ev (tss idiom e n) st = RFault f
   | RStuck _ => True
   end.
